@@ -169,6 +169,16 @@ class Resolver:
             for ns in self.namespaces:
                 if node.id in ns:
                     return ns[node.id]
+        # simple constant expressions over resolvable parts: len(X), X + Y, X - Y, X * Y, (X, Y), [X, Y], {X, Y}
+        if isinstance(node, ast.Call) and isinstance(node.func, ast.Name) and node.func.id in ("len", "tuple", "list", "set", "frozenset", "sorted") \
+                and len(node.args) == 1 and not node.keywords:
+            return {"len": len, "tuple": tuple, "list": list, "set": set, "frozenset": frozenset, "sorted": sorted}[node.func.id](self(node.args[0], local_scope))
+        if isinstance(node, ast.BinOp) and isinstance(node.op, (ast.Add, ast.Sub, ast.Mult)):
+            a, b = self(node.left, local_scope), self(node.right, local_scope)
+            return a + b if isinstance(node.op, ast.Add) else a - b if isinstance(node.op, ast.Sub) else a * b
+        if isinstance(node, (ast.Tuple, ast.List, ast.Set)):
+            vals = [self(e, local_scope) for e in node.elts]
+            return tuple(vals) if isinstance(node, ast.Tuple) else vals if isinstance(node, ast.List) else set(vals)
         if isinstance(node, ast.Attribute):
             d = dotted(node)
             if d:
